@@ -230,6 +230,10 @@ Definition jrun_obs (fixed : bool) (sched : list jaction) (s : jstate) : jstate 
 Definition run_jobs (workers : nat) (outs : list (outcome R E)) (sched : list jaction) : jstate :=
   jrun_obs false (V :: sched ++ repeat JP (jdrain_fuel workers (length outs))) (jstart workers (enum outs)).
 
+(* the same call on jobs that carry ANY numbers (the k-th job of the shared queue need not be job number k) *)
+Definition run_jobs_items (workers : nat) (jobs : list item) (sched : list jaction) : jstate :=
+  jrun_obs false (V :: sched ++ repeat JP (jdrain_fuel workers (length jobs))) (jstart workers jobs).
+
 (* ---------------- callers that key results by job number ---------------- *)
 Fixpoint lookup (k : nat) (l : list item) : option (outcome R E) :=
   match l with
@@ -299,6 +303,52 @@ Definition samples_from_model (fixed : bool) (n total : nat) (stream : list poin
 End Initializer.
 Arguments init_result : clear implicits.
 
+(* ---------------- job numbering: AbstractJob.__init__ and the class-level counter `_number = count()` ---------------- *)
+(* a job built with an explicit number keeps it; one built without draws the next value of the counter, which is
+   shared by every job class of the process (SneakyJob draws from it on every map).  [zero_is_missing] = the slip
+   `number or next(counter)`: an explicit 0 is taken for "no number". *)
+Definition assign1 (zero_is_missing : bool) (c : nat) (spec : option nat) : nat * nat :=
+  match spec with
+  | Some k => if zero_is_missing && (k =? 0) then (c, S c) else (k, c)
+  | None => (c, S c)
+  end.
+Fixpoint assign (zero_is_missing : bool) (c : nat) (specs : list (option nat)) : list nat * nat :=
+  match specs with
+  | [] => ([], c)
+  | sp :: r => let (k, c1) := assign1 zero_is_missing c sp in
+               let (l, c2) := assign zero_is_missing c1 r in (k :: l, c2)
+  end.
+
+(* ---------------- SneakierPool and the class-global FunctionCache (sneaky.py) ---------------- *)
+(* [SConstruct id m]: SneakierPool(fitness = m*x+1) -- `initializer(...)` overwrites the ONE class-global slot;
+   [SEnter id]: `with pool:` -- mp.Pool forks here, the workers keep whatever the slot holds at this moment;
+   [SMap xs]: `pool.map(pool.fitness, xs)` inside the open block; [SExit]: __exit__ deletes the slot.
+   [install_at_enter] = the proposed repair: __enter__ re-installs the pool's own functions before it forks. *)
+Inductive sop := SConstruct (id : nat) (m : Z) | SEnter (id : nat) | SMap (xs : list Z) | SExit.
+Definition slot_eval (slot : option Z) (xs : list Z) : option (list Z) :=
+  match slot with Some g => Some (map (fun x => g * x + 1)%Z xs) | None => None end.
+Fixpoint own (pools : list (nat * Z)) (id : nat) : option Z :=
+  match pools with [] => None | (i, m) :: r => if i =? id then Some m else own r id end.
+Fixpoint sneakier (install_at_enter : bool) (ops : list sop) (pools : list (nat * Z)) (slot forked : option Z)
+  : list (option (list Z)) :=
+  match ops with
+  | [] => []
+  | SConstruct id m :: r => sneakier install_at_enter r ((id, m) :: pools) (Some m) forked
+  | SEnter id :: r =>
+      let s := if install_at_enter then own pools id else slot in sneakier install_at_enter r pools s s
+  | SMap xs :: r => slot_eval forked xs :: sneakier install_at_enter r pools slot forked
+  | SExit :: r => sneakier install_at_enter r pools None None
+  end.
+(* serial meaning: every map gives the function of the pool whose block is open, on its own inputs *)
+Fixpoint sneakier_serial (ops : list sop) (pools : list (nat * Z)) (cur : option Z) : list (option (list Z)) :=
+  match ops with
+  | [] => []
+  | SConstruct id m :: r => sneakier_serial r ((id, m) :: pools) cur
+  | SEnter id :: r => sneakier_serial r pools (own pools id)
+  | SMap xs :: r => slot_eval cur xs :: sneakier_serial r pools cur
+  | SExit :: r => sneakier_serial r pools None
+  end.
+
 (* ---------------- correspondence cases ---------------- *)
 Fixpoint list_eqb {A} (eqb : A -> A -> bool) (a b : list A) : bool :=
   match a, b with
@@ -339,6 +389,14 @@ Inductive case :=
    (the exception of cell c), Some None (some other exception: never what the code as it is now -- both consumer
    loops re-raise the yielded exception, grid search since 74ff428 -- does, so it never matches); [stored] = index column of
    results.csv (arrival order, or sorted for Sensitivity); [final] = what the returned result holds per cell *)
+(* run_jobs on jobs that carry the numbers [nums] (in queue order) *)
+| CJobsN (workers : nat) (nums : list nat) (outs : list (outcome Z Z)) (sched : list jaction)
+        (items : list (option nat * Z)) (raised : option Z) (summ : list (option Z)) (srt : list (nat * Z))
+        (evals : list nat)
+(* job numbering: counter before, what each constructed job asked for, the numbers they got, counter after *)
+| CNumbers (before : nat) (specs : list (option nat)) (numbers : list nat) (after : nat)
+(* SneakierPool histories: observed result per map (None = the map failed) *)
+| CSneakier (ops : list sop) (results : list (option (list Z)))
 | CCaller (sorted_csv : bool) (workers : nat) (outs : list (outcome Z Z)) (sched : list jaction)
           (raised : option (option Z)) (stored : list nat) (final : list (option Z)).
 
@@ -354,6 +412,18 @@ Definition check_case (c : case) : bool :=
       && list_eqb (opt_eqb Z.eqb) (map okval (summaries (length outs) (good (jtaken s)))) summ
       && list_eqb nz_eqb (map numval (sorted_results (good (jtaken s)))) srt
       && list_eqb Nat.eqb (map (fun k => if existsb (fun it : item Z Z => fst it =? k) (jq s) then 0 else 1) (seq 0 (length outs))) evals
+  | CJobsN workers nums outs sched items raised summ srt evals =>
+      let s := run_jobs_items workers (combine nums outs) sched in
+      Nat.eqb (length nums) (length outs) && jdone s
+      && list_eqb view_eqb (map jobs_view (jtaken s)) items
+      && opt_eqb Z.eqb (exc_value (jexc s)) raised
+      && list_eqb (opt_eqb Z.eqb) (map okval (summaries (length outs) (good (jtaken s)))) summ
+      && list_eqb nz_eqb (map numval (sorted_results (good (jtaken s)))) srt
+      && list_eqb Nat.eqb (map (fun k => if existsb (fun it : item Z Z => fst it =? k) (jq s) then 0 else 1) (seq 0 (length outs))) evals
+  | CNumbers before specs numbers after =>
+      let (l, c) := assign false before specs in list_eqb Nat.eqb l numbers && Nat.eqb c after
+  | CSneakier ops results =>
+      list_eqb (opt_eqb (list_eqb Z.eqb)) (sneakier false ops [] None None) results
   | CCaller sorted_csv workers outs sched raised stored final =>
       let s := run_jobs workers outs sched in
       let (r, acc) := consume (jtaken s) [] in
